@@ -63,7 +63,7 @@ CHECKS["C14"] = dict(
 CHECKS["C19"] = dict(
     engine="E2-history-bfs",
     technique="explicit-state BFS over build/prune/reset/reconfigure histories of the real CiderGrids object, canonical state = settings + grid hash, invariants in every state",
-    text="For each molecule (repeated and unique elements, an element re-occurring after another one, a third-period element) and lmax in {4, 6, 10, 12}, histories of build(sort, non0tab), repeated prune_by_density_ at several thresholds, reset and setting changes (level, sizes, per-element sizes, pruning scheme, alignment) are explored breadth first to depth 3 on one real CiderGrids object while the same history is applied to a pyscf Grids reference; in every distinct state the point/weight multisets must be bitwise equal, the index map injective and consistent with weights, owning atoms, radial shells and direction tables, padding weights zero, tables monotone/consistent, and the per-shell real spherical harmonics orthonormal under the shell quadrature up to the supported degree and zero above.",
+    text="For each molecule (repeated and unique elements, an element re-occurring after another one, a third-period element) and lmax in {4, 6, 10, 12}, histories of build(sort, non0tab), build(mol = the same atoms in reverse order) on the object constructed for the original order, repeated prune_by_density_ at several thresholds, reset and setting changes (level, sizes, per-element sizes, pruning scheme, alignment) are explored breadth first to depth 3 on one real CiderGrids object while the same history is applied to a pyscf Grids reference; in every distinct state the point/weight multisets must be bitwise equal, the index map injective and consistent with weights, owning atoms, radial shells and direction tables, padding weights zero, tables monotone/consistent, and the per-shell real spherical harmonics orthonormal under the shell quadrature up to the supported degree and zero above.",
     note="Molecules include an element re-occurring after another, a third-period element and labelled atoms (H1, H@2). Default radial scheme/Becke partition; full_lmax passed explicitly.",
     design="5/C19",
 )
